@@ -81,8 +81,11 @@ class Server:
         backend._mark_as_principal("/user/")
         self.app = web.XandikosApp(backend, current_user_principal="/user/")
 
+    script_name = ""
+
     def request(self, method, path, body=b"", ctype=None, headers=()):
-        environ = {"REQUEST_METHOD": method, "SCRIPT_NAME": "", "PATH_INFO": path.encode("utf-8").decode("iso-8859-1"),
+        environ = {"REQUEST_METHOD": method, "SCRIPT_NAME": self.script_name,
+                   "PATH_INFO": path.encode("utf-8").decode("iso-8859-1"),
                    "SERVER_NAME": "localhost", "SERVER_PORT": "80", "SERVER_PROTOCOL": "HTTP/1.1",
                    "wsgi.url_scheme": "http", "wsgi.input": io.BytesIO(body), "CONTENT_LENGTH": str(len(body))}
         if ctype:
@@ -239,7 +242,9 @@ def main_raw(job):
         for i, script in enumerate(job["scripts"]):
             work = os.path.join(top, "w%d" % i)
             shutil.copytree(base, work, symlinks=True)
-            results.append(run_raw_script(Server(os.path.join(work, "root")), script))
+            srv = Server(os.path.join(work, "root"))
+            srv.script_name = job.get("script_name", "")
+            results.append(run_raw_script(srv, script))
             shutil.rmtree(work, ignore_errors=True)
     finally:
         shutil.rmtree(top, ignore_errors=True)
